@@ -18,11 +18,14 @@ FLAGSETS = [  # (frozen, order, unsafe_hash, user_state); user_state: which stat
     (True, True, False, "none"), (False, False, True, "none"), (True, False, False, "both"),
     (False, False, False, "both"), (True, False, False, "set"), (False, False, False, "set"),
     (True, False, False, "get"), (False, True, False, "get"),
+    # no hooks, but the last own field is declared field(init=False) without a default: instances are copied / pickled while
+    # that field is still unassigned
+    (True, False, False, "late"), (False, False, False, "late"),
 ]
 
 
 def hooks_of(ustate):
-    return {True: "both", False: "none"}.get(ustate, ustate)
+    return {True: "both", False: "none", "late": "none"}.get(ustate, ustate)
 _N = [0]
 
 
@@ -38,6 +41,9 @@ def _class_src(i, desc, flags, scope, redecl=None):
         body += f"    {redecl}: int = 999\n"
     if i % 2 == 0 and desc["nf"]:
         body = body.replace(f" = {10 * i + 1}\n", f" = dataclasses.field(default_factory=lambda: {10 * i + 1})\n", 1)
+    if ustate == "late" and desc["nf"]:
+        last = f"    c{i}f{desc['nf']}: int = "
+        body = "".join((last + "dataclasses.field(init=False)\n") if ln.startswith(last) else ln for ln in body.splitlines(True))
     ustate = hooks_of(ustate)
     if ustate in ("both", "get"):
         body += "    def __getstate__(self):\n        return {f.name: getattr(self, f.name) for f in dataclasses.fields(self)}\n"
@@ -76,7 +82,7 @@ def battery(C, modname):
             out[op] = str(fn()).replace(modname, "MOD")
         except Exception as e:
             out[op] = "raised:" + type(e).__name__
-    fs = [f.name for f in dataclasses.fields(C)]
+    fs = [f.name for f in dataclasses.fields(C) if f.init]      # (a field(init=False) member is no constructor parameter)
     n = len(fs)
     rec("fields", lambda: [(f.name, repr(f.default)[:20], f.default_factory is not dataclasses.MISSING) for f in dataclasses.fields(C)])
     rec("qualname", lambda: (C.__qualname__, C.__name__, C.__doc__, C.__module__))
@@ -94,6 +100,9 @@ def battery(C, modname):
     rec("hash", lambda: (hash(x) == hash(y), hash(x)))
     rec("copy", lambda: (copy.copy(z) == z, type(copy.copy(z)) is C, copy.copy(z) is not z))
     rec("deepcopy", lambda: (copy.deepcopy(z) == z, type(copy.deepcopy(z)) is C))
+    # the same without comparing (an instance with a still unassigned field cannot be compared, but it can be copied)
+    rec("copy_only", lambda: (type(copy.copy(z)) is C, type(copy.deepcopy(z)) is C))
+    rec("pickle_only", lambda: [type(pickle.loads(pickle.dumps(z, p))) is C for p in range(2, pickle.HIGHEST_PROTOCOL + 1)])
     for proto in range(2, pickle.HIGHEST_PROTOCOL + 1):
         rec(f"pickle{proto}", lambda p=proto: (pickle.loads(pickle.dumps(z, p)) == z, repr(pickle.loads(pickle.dumps(z, p)))))
     if fs:
@@ -161,7 +170,7 @@ def run_history(hist, hid, flags, scope, redeclare=False):
             hooks = hooks_of(flags[3])
             # a lone __getstate__ that returns a dict cannot restore an object without __dict__ (as with the standard library's
             # own slots=True): copying is not compared for it, the hook bookkeeping below still is
-            skip = ("copy", "deepcopy", "pickle") if hooks == "get" else ()
+            skip = ("copy", "deepcopy", "pickle") if hooks == "get" else ()        # (prefixes: copy_only / pickle_only too)
             ev["mismatch"] = sorted(f"{op}: slotted={bs.get(op)} plain={bp.get(op)}"[:200] for op in set(bs) | set(bp)
                                     if bs.get(op) != bp.get(op) and not op.startswith(skip or ("\0",)))
             ss = Cs.__dict__.get("__setstate__")
@@ -246,7 +255,7 @@ def run(ctx: Ctx) -> Outcome:
            "distinct_nontrivial": len(nontrivial), "histories": len(hists), "state_hook_events": len(sev),
            "rule": "model: every decoration history of length<=3 over 2 names (thorough: 4 over one name); real: TLC-emitted complete "
                    "histories (one repeated name, length 3; two names, length 2, up to 2 fields) materialised with decorator syntax at "
-                   "module and function-local scope under 11 dataclass flag sets (frozen/order/unsafe_hash x the state hooks the body declares: none, both, a lone __setstate__, a lone __getstate__) (every fourth history with the child re-declaring a field of its base), each slotted class compared with its plain twin under "
+                   "module and function-local scope under 13 dataclass flag sets (frozen/order/unsafe_hash x the state hooks the body declares: none, both, a lone __setstate__, a lone __getstate__) (every fourth history with the child re-declaring a field of its base), each slotted class compared with its plain twin under "
                    "the operation battery; non-trivial = decoration of a class with a base",
            "samples": [_slim(events[len(events) // 2])]}
     return Outcome(level="model_checking", coverage=cov, violations=viol, impl_drift=drift,
